@@ -246,7 +246,7 @@ def finalize_violation(spec, res, m, ref, repo, max_execs, wall_s=None):
     return data, None
 
 
-def explore(tier, seed, repo, budget_s, stats, found, ref, probes, pool, t_end, n_s1, n_s2, instr_frac, sa_frac, chunk=4800):
+def explore(tier, seed, repo, budget_s, stats, found, ref, probes, pool, t_end, n_s1, n_s2, instr_frac, sa_frac, chunk=480):
     c = corpus()
     harness = []
 
@@ -264,28 +264,52 @@ def explore(tier, seed, repo, budget_s, stats, found, ref, probes, pool, t_end, 
     base = seed * 1_000_000
     # one interleaved job stream (two S1 runs, then one S2 history, ...) under one deadline, so that a
     # long-tailed run of one kind cannot starve the other kind
-    jobs = []
+
+    def flush(specs):
+        ref.ensure([op for sp in specs for cl in sp['clients'] for op in cl])
+        check_twice(ref, pool, found)
+        jobs = [(sp['hashseed'], gen.attach(sp, ref, probes)) for sp in specs]
+        pool.run_jobs(jobs, on_result=on, deadline=t_end)
+
+    specs = []
     i1 = i2 = 0
     while i1 < n_s1 or i2 < n_s2:
         for _ in range(2):
             if i1 < n_s1:
-                spec = gen.attach(gen.gen_s1(base + i1, c, ref, instr_frac, sa_frac), ref, probes)
-                jobs.append((spec['hashseed'], spec))
+                specs.append(gen.gen_s1(base + i1, c, None, instr_frac, sa_frac))
                 i1 += 1
         if i2 < n_s2:
-            spec = gen.attach(gen.gen_s2(base + i2, c, ref), ref, probes)
-            jobs.append((spec['hashseed'], spec))
+            specs.append(gen.gen_s2(base + i2, c, None))
             i2 += 1
-        if len(jobs) >= chunk:
-            pool.run_jobs(jobs, on_result=on, deadline=t_end)
-            jobs = []
+        if len(specs) >= chunk:
+            flush(specs)
+            specs = []
             if harness or found.full() or time.time() > t_end:
                 break
-    if jobs and not harness and not found.full():
-        pool.run_jobs(jobs, on_result=on, deadline=t_end)
+    if specs and not harness and not found.full():
+        flush(specs)
     if harness:
         spec, err = harness[0]
         raise HarnessError('%s seed %s: %s' % (spec['sub'], spec['seed'], err))
+
+
+def check_twice(ref, pool, found):
+    """Ops whose immediate repetition in one (otherwise idle) process gave a different observable: re-run [op, op]
+    as an ordinary S2 history, which decides between a history dependence of the library and non-transparent
+    instrumentation."""
+    tw, ref.twice = ref.twice[:5], []
+    for op in tw:
+        spec = {'cmd': 'sim', 'property': PROP, 'sub': 'S2', 'seed': -1, 'hashseed': 0, 'families': [], 'clients': [[op, op]],
+                'gran': 'line', 'scope': ['repo'], 'cat_mode': 'op', 'rnd_mode': 'op', 'meta_share': False,
+                'strategy': {'kind': 'none'}, 'sched_seed': 0, 'faults': [], 'gcs_at': []}
+        spec = gen.attach(spec, ref, [])
+        res = pool.z[0].call(spec)
+        if 'harness_error' in res:
+            raise HarnessError(res['harness_error'])
+        if res['mismatches']:
+            found.add(spec, res)
+        else:
+            raise HarnessError('event counting changed the observable of %r but a plain repetition does not' % (op,))
 
 
 def focus_sweep(seed, stats, found, ref, probes, pool, t_end, per_class, reps):
@@ -307,6 +331,8 @@ def focus_sweep(seed, stats, found, ref, probes, pool, t_end, per_class, reps):
                 continue
             bases.append(gen.gen_sweep_base(seed * 1_000_000 + 900_000 + i, c, ref, fam))
             i += 1
+    ref.ensure([op for b_ in bases for cl in b_['clients'] for op in cl])
+    check_twice(ref, pool, found)
     lists = {}
 
     def on_list(spec, res):
@@ -342,7 +368,8 @@ def focus_sweep(seed, stats, found, ref, probes, pool, t_end, per_class, reps):
         for f in fns:
             for r in range(reps):
                 spec = _copy.deepcopy(b)
-                spec['strategy'] = {'kind': 'focus', 'fn': f, 'p': (1.0, 0.5, 0.3)[r % 3]}
+                # rep 0: line-level alternation; rep 1, 2: bytecode-level pre-emption inside the function (races inside one line)
+                spec['strategy'] = {'kind': 'focus', 'fn': f, 'p': (0.5, 0.5, 0.25)[r % 3], 'instr': r % 3 != 0}
                 spec['sched_seed'] = (b['sched_seed'] + r * 7919 + hash_str(f[1])) & 0x3FFFFFFF
                 spec = gen.attach(spec, ref, probes)
                 jobs.append((spec['hashseed'], spec))
@@ -368,7 +395,7 @@ def main(tier='quick', seed=0, repo=None):
     if tier == 'quick':
         n_s1, n_s2, n_s3, s3_slice, instr_frac, sa_frac, max_min = 1600, 800, 16, 400, 0.08, 0.0, 150
         fr = 0.62
-        sweep = (1, 1, 0.35)
+        sweep = (1, 2, 0.4)
     else:
         n_s1, n_s2, n_s3, s3_slice, instr_frac, sa_frac, max_min = 10 ** 7, 10 ** 7, 64, None, 0.25, 0.15, 300
         fr = 0.6
@@ -380,24 +407,14 @@ def main(tier='quick', seed=0, repo=None):
     ref_pool = Pool([0] * 16, repo)
     sim_pool = Pool(gen.HASHSEEDS, repo)
     try:
+        gen.set_hints(c)
         oplist = list(refs.all_ops(c).values())
-        ref, twice = refs.compute(ref_pool, oplist)
-        ref_pool.close()
-        t_ref = time.time() - t0
-        print('[C20] reference table: %d ops in %.1fs (%d ops changed on immediate repetition)' % (len(ref), t_ref, len(twice)), flush=True)
-        # ops whose immediate repetition in one process differs: run [op, op] as an S2 history
-        for op in twice[:5]:
-            spec = {'cmd': 'sim', 'property': PROP, 'sub': 'S2', 'seed': -1, 'hashseed': 0, 'families': [], 'clients': [[op, op]],
-                    'gran': 'line', 'scope': ['repo'], 'cat_mode': 'op', 'rnd_mode': 'op', 'meta_share': False,
-                    'strategy': {'kind': 'none'}, 'sched_seed': 0, 'faults': [], 'gcs_at': []}
-            spec = gen.attach(spec, ref, [])
-            res = sim_pool.z[0].call(spec)
-            if 'harness_error' in res:
-                raise HarnessError(res['harness_error'])
-            if res['mismatches']:
-                found.add(spec, res)
-            else:
-                raise HarnessError('event counting changed the observable of %r but a plain repetition does not' % (op,))
+        ref = refs.LazyRef(ref_pool)
+        ref.ensure(probes)
+        if tier == 'thorough':
+            ref.ensure(oplist)
+            print('[C20] reference table: %d ops in %.1fs' % (len(ref), time.time() - t0), flush=True)
+        check_twice(ref, sim_pool, found)
         now = time.time()
         left = max(10.0, budget_s - (now - t0))
         t_end = now + left * fr
@@ -406,7 +423,6 @@ def main(tier='quick', seed=0, repo=None):
         if not found.full() and sweep[0]:
             t_sw = time.time() + max(5.0, (budget_s - (time.time() - t0)) * sweep[2])
             focus_sweep(seed, stats, found, ref, probes, sim_pool, t_sw, sweep[0], sweep[1])
-        sim_pool.close()
         # ---------------- S3
         s3_runs = 0
         s3_ops = 0
@@ -419,8 +435,10 @@ def main(tier='quick', seed=0, repo=None):
                 # stratified slice: every family op kind, all malformed/mutation parse ops first (error paths), then the rest
                 # half rejected inputs (error messages are where hash-seed dependence showed), a quarter one op per
                 # stratum (kind x dialect x renderer/catalog x accepted/rejected, and two ops of every family), the rest random
-                errs = [op for op in s3_all if op['k'] == 'parse' and ref[O.op_key(op)]['obs'].startswith('err')]
-                rest = [op for op in s3_all if not (op['k'] == 'parse' and ref[O.op_key(op)]['obs'].startswith('err'))]
+                hints = c.get('hints') or {}
+                is_err = lambda op: op['k'] == 'parse' and (hints.get(O.op_key(op)) or ['ok'])[0] == 'err'  # noqa
+                errs = [op for op in s3_all if is_err(op)]
+                rest = [op for op in s3_all if not is_err(op)]
                 rng.shuffle(errs)
                 rng.shuffle(rest)
                 strat = []
@@ -440,6 +458,10 @@ def main(tier='quick', seed=0, repo=None):
                     if len(pick) >= s3_slice + s3_slice // 4:
                         break
                 s3_all = pick
+            ref.ensure(s3_all)
+            check_twice(ref, sim_pool, found)
+            sim_pool.close()
+            ref_pool.close()
             for h, perm, out in run_s3(s3_seeds, s3_all, ref, repo, seed):
                 s3_runs += 1
                 s3_ops += len(perm)
@@ -509,13 +531,14 @@ def main(tier='quick', seed=0, repo=None):
             'focus_sweep_runs': stats.sweep_runs, 'focus_sweep_distinct_functions': len(stats.sweep_functions),
             'lock_yields (client blocked on a lock held by a parked client)': stats.lock_yields,
             'sim_runs_per_hour': int(sim_runs / max(wall, 1e-6) * 3600), 'seeds_per_hour': int(evaluations / max(wall, 1e-6) * 3600),
-            'reference_seconds': round(t_ref, 1), 'components': COMPONENTS,
+            'reference_seconds': round(ref.seconds, 1), 'components': COMPONENTS,
             'exhaustive': False,
         }
         for n in NAMED_PROBES:
             if stats.runs['S1'] and not stats.overlap.get(n):
                 print('[C20] warning: probe "two clients inside %s at once" stuck at zero' % n, flush=True)
         report.write_evidence(PROP, tier, seed, cov, ASSUMPTIONS, wall, nviol)
+        print('[C20] reference table: %d ops computed in %.1fs' % (len(ref), ref.seconds), flush=True)
         print('[C20] %d sim runs (%s), %d S3 interpreters, %d steps, %d switches, faults fired %s, %d distinct interleavings, %.1fs' % (
             sim_runs, dict(stats.runs), s3_runs, stats.steps, stats.switches, dict(stats.fired), len(stats.sigs), wall), flush=True)
         return 1 if nviol else 0
